@@ -4,7 +4,7 @@
 EXTENDS AuthGen, Json, IOUtils, SequencesExt
 
 Tier  == IOEnv.AUTH_TIER
-Cases == <<NewNonceReq>> \o SetToSeq(AllCases(Tier))
+Cases == <<NewNonceReq>> \o CaseSeq(Tier, SetToSeq)
 
 VARIABLE x
 Init == x = 0
